@@ -8,7 +8,7 @@ use vcore::{Check, Labels, Stats, Step, Tape, Tier, Verdict};
 pub struct C01;
 pub const CHECK: C01 = C01;
 pub fn plan(t: Tier) -> vcore::Plan {
-    vcore::Plan::new(t.pick(6_000, 400_000), t.pick(2600, 4000))
+    vcore::Plan::new(t.pick(24_000, 400_000), t.pick(2600, 4000))
 }
 
 impl Check for C01 {
